@@ -558,6 +558,11 @@ func (ck *checker) ojWriters(tree any, gtree gen.Node, o *ojg.Options, cs map[st
 		}
 	}
 	// Marshal (strict) and writers on instances
+	if m, err := oj.Marshal(gtree, o); err != nil {
+		c.Violation("oj.Marshal(gen)", "error", "", cs, "text", err.Error())
+	} else {
+		same("oj.Marshal(gen)", m)
+	}
 	if m, err := oj.Marshal(tree, o); err != nil {
 		c.Violation("oj.Marshal", "error", "", cs, "text", err.Error())
 	} else {
